@@ -297,6 +297,19 @@ func (fa facts) apply(info *types.Info, e Event) bool {
 			if cur, ok := fa[ck]; ok {
 				n, _ = strconv.Atoi(cur)
 			}
+			// relate the iteration count to memoised `len(X) > k` conditions
+			for k := 0; k <= 2; k++ {
+				memo, known := fa["cond:len("+ExprStr(rs.X)+") > "+strconv.Itoa(k)]
+				if !known {
+					continue
+				}
+				if e.Taken && memo == "const:false" && n+1 > k {
+					return false // iteration n+1 exists, so len > k
+				}
+				if !e.Taken && memo == "const:true" && n <= k {
+					return false // only n iterations although len > k
+				}
+			}
 			if e.Taken {
 				if k := chainKey(rs.Key); k != "" {
 					if tv, ok := info.Types[rs.X]; ok {
